@@ -1,6 +1,6 @@
 """C01 — pub/sub fan-out: every subscriber gets every message once, in publisher order."""
 from .. import flow
-from . import routers, sweeps, c07
+from . import routers, sweeps, c07, common as K
 
 EXPLANATION = (
     "Structural conditions decided statically: (D1) PollAI on the pub/sub router — single-slot FIFO discipline (K1 no overwrite of buffered_item, "
@@ -15,6 +15,7 @@ ASSUMPTIONS = ["operation table of DESIGN §5", "FramedWrite/quinn deliver what 
 
 def run(ctx):
     F = ctx.facts("quick")
+    K.socket_pass_through(ctx, F, "C01.D5")
     ex, sd, cfg = routers.report(ctx, F, "pubsub", "C01", lambda f: f.kind in ("K1", "K3", "K4", "K5", "K7", "K9", "K10", "K13"))
     ctx.floor("C01.pollai.persistent-states", len(ex.persistent), 4)
     ops = ex.h.ops_seen
